@@ -3,7 +3,7 @@
       nav TAB init TAB sets TAB seq TAB seq ...
       init : tables terminated by '|', cells terminated by ','        e.g.  17,4,|9,|
       sets : result sets terminated by ';', each  time:step:tables   (cell '-' = not assigned)
-      seq  : ops terminated by ','   F L N P H I<int> T<int> S<int>
+      seq  : ops terminated by ','   F L N P H U I<int> T<int> S<int>   (U = history() with no matching specification)
     Result: observations separated by ';' -- first the state after opening, then per
     sequence the blank-separated observations after every op:  outcome/index/time/step/tables *)
 From Coq Require Import Ascii String List Bool ZArith NArith.
@@ -26,7 +26,7 @@ Definition parse_set (s : str) : rset :=
   end.
 Definition parse_op (s : str) : op :=
   match s with
-  | ["F"] => First | ["L"] => Last | ["N"] => Next | ["P"] => Prev | ["H"] => History
+  | ["F"] => First | ["L"] => Last | ["N"] => Next | ["P"] => Prev | ["H"] => History | ["U"] => HistoryNone
   | "I" :: r => SetIndex (z_of_str r)
   | "T" :: r => SetTime (z_of_str r)
   | "S" :: r => SetStep (z_of_str r)
